@@ -501,6 +501,34 @@ class SVG:
         # capture elements by id so even if we change it they remain stable
         el_by_id = {el.attrib["id"]: el for el in self.xpath(".//svg:*[@id]")}
 
+        # a use that (transitively) instantiates itself would be expanded forever
+        href_attr = _xlink_href_attr_name()
+
+        def _use_targets(el):
+            return sorted(
+                {
+                    use_el.attrib.get(href_attr, "")[1:]
+                    for use_el in self.xpath("descendant-or-self::svg:use", el=el)
+                    if use_el.attrib.get(href_attr, "").startswith("#")
+                }
+            )
+
+        visiting, done = set(), set()
+
+        def _reject_cycles(el_id):
+            if el_id in done or el_id not in el_by_id:
+                return
+            if el_id in visiting:
+                raise ValueError(f"Circular use reference through '{el_id}'")
+            visiting.add(el_id)
+            for target_id in _use_targets(el_by_id[el_id]):
+                _reject_cycles(target_id)
+            visiting.discard(el_id)
+            done.add(el_id)
+
+        for target_id in _use_targets(scope_el):
+            _reject_cycles(target_id)
+
         while True:
             swaps = []
             use_els = list(self.xpath(".//svg:use", el=scope_el))
